@@ -27,6 +27,7 @@ pub const SETUP: &str = "
   (lambda (msg x)
     (set! total (+ total (if (= msg 2) x 0)))
     (if (= msg 0) (set! next x) (if (= msg 1) total (if next (next 2 x) total)))))
+(define (collect i acc) (if (= i 0) acc (collect (- i 1) (cons (lambda () (set! i (+ i 10)) i) acc))))
 (define na (make-node))
 (define nb (make-node))
 (define nc (make-node))
@@ -82,12 +83,16 @@ pub const OPS: &[&str] = &[
     // tail-calls the next one
     "(na 2 5)",
     "(nb 2 1)",
+    // one name bound twice by a let* with a closure made in between; closures over the parameter
+    // of a self-tail-recursive loop (one binding per round)
+    "(define zs (let* ((z 0) (getz (lambda () z)) (z 10)) (set! z (+ z 1)) (list getz (lambda () z))))",
+    "(define ks (collect 3 '()))",
 ];
 
 /// destructive probes, run after the canonical state has been taken
 pub const PROBES: &[&str] = &[
     "u", "w", "(getu)", "(c1)", "(c2)", "((cadr d1))", "((car d1))", "((cadr d1))", "((cadr d2))", "(getw)", "w", "v1", "v2", "l", "vv", "mv", "(setparam u)", "u",
-    "(bump-w)", "w", "n", "box", "((vector-ref cbox 0))", "(c1)", "(c2)", "(vector-set! v1 0 7)", "v1", "v2", "l", "vv", "mv", "(setter 0 8)", "v1", "v2", "box", "(vector-set! v2 1 6)", "box", "v1", "n", "(na 1 0)", "(nb 1 0)", "(nc 1 0)", "(na 2 3)", "(list (na 1 0) (nb 1 0) (nc 1 0))",
+    "(bump-w)", "w", "n", "box", "((vector-ref cbox 0))", "(c1)", "(c2)", "(vector-set! v1 0 7)", "v1", "v2", "l", "vv", "mv", "(setter 0 8)", "v1", "v2", "box", "(vector-set! v2 1 6)", "box", "v1", "n", "(na 1 0)", "(nb 1 0)", "(nc 1 0)", "(na 2 3)", "(list (na 1 0) (nb 1 0) (nc 1 0))", "((car zs))", "((cadr zs))", "(map (lambda (k) (k)) ks)", "((car ks))",
 ];
 
 /// places whose values may be vectors: the alias partition is computed over them
